@@ -376,11 +376,14 @@ separate_digits_fractional(Arg, Sep, Num, Cs) :-
         number_chars(Num, NCs),
         phrase(("~",seq(NCs),"d"), FStr),
         phrase(format_(FStr, [Arg]), Cs0),
-        phrase(upto_what(Bs0, .), Cs0, Ds),
+        (   Cs0 = [-|Cs1] -> Sign = "-" % the sign is not part of a group
+        ;   Cs1 = Cs0, Sign = []
+        ),
+        phrase(upto_what(Bs0, .), Cs1, Ds),
         reverse(Bs0, Bs1),
         phrase(groups_of_three(Bs1,Sep), Bs2),
         reverse(Bs2, Bs),
-        append(Bs, Ds, Cs).
+        append([Sign, Bs, Ds], Cs).
 
 upto_what([], W), [W] --> [W], !.
 upto_what([C|Cs], W) --> [C], !, upto_what(Cs, W).
